@@ -27,14 +27,32 @@ CHECK_DEADLOCK FALSE
 """
 
 
-def realise(x, shift=0.0):
-    """Abstract grid -> real Grid. Coordinates: abstract value v -> 10*v degrees."""
+SCALES = ("deg10", "ulp", "nano")
+
+
+def _coord(v, scale, base):
+    """Abstract coordinate value -> degrees.  Distinct abstract values are distinct floats under every
+    scale: 10 degrees apart, one unit in the last place apart, or 1e-9 degrees apart."""
+    import numpy as np
+
+    if scale == "deg10":
+        return 10.0 * v
+    if scale == "ulp":
+        x = np.float64(base)
+        for _ in range(int(v)):
+            x = np.nextafter(x, np.float64(1e9))
+        return float(x)
+    return base + 1e-9 * v
+
+
+def realise(x, scale="deg10"):
+    """Abstract grid -> real Grid."""
     import numpy as np
 
     ux = hux.import_ux()
     INT_DTYPE, FILL = hux.consts()
-    lon = np.array([10.0 * v for v in x["lon"]], dtype=float)
-    lat = np.array([10.0 * v for v in x["lat"]], dtype=float)
+    lon = np.array([_coord(v, scale, 30.0 + 7.0 * i) for i, v in enumerate(x["lon"])], dtype=float)
+    lat = np.array([_coord(v, scale, -20.0 + 9.0 * i) for i, v in enumerate(x["lat"])], dtype=float)
     conn = np.array([list(f) for f in x["conn"]], dtype=INT_DTYPE)
     g = ux.Grid.from_topology(lon, lat, conn, fill_value=FILL)
     if x["spec"] == "B":
@@ -46,11 +64,12 @@ def realise(x, shift=0.0):
 def run_pair(case):
     out = {"id": case["id"]}
     try:
-        g = realise(case["g"])
-        h = realise(case["h"])
+        sc = case.get("scale", "deg10")
+        g = realise(case["g"], sc)
+        h = realise(case["h"], sc)
         out["obs"] = [bool(g == h), bool(h == g), bool(g != h), bool(h != g)]
         out["refl"] = [bool(g == g), bool(h == h), bool(g != g)]
-        g2 = realise(case["g"])  # an independently built identical grid
+        g2 = realise(case["g"], sc)  # an independently built identical grid
         out["same"] = [bool(g == g2), bool(g2 == g), bool(g != g2)]
         out["copy"] = [bool(g.copy() == g), bool(g == g.copy())]
         out["nongrid"] = [bool(g == 3), bool(g == "grid"), bool(g == None), bool(g != 3)]  # noqa: E711
@@ -90,7 +109,7 @@ def run(ctx):
     for k, s in enumerate(states):
         g = {"spec": s["g"]["spec"], "lon": list(s["g"]["lon"]), "lat": list(s["g"]["lat"]), "conn": [list(f) for f in s["g"]["conn"]]}
         h = {"spec": s["h"]["spec"], "lon": list(s["h"]["lon"]), "lat": list(s["h"]["lat"]), "conn": [list(f) for f in s["h"]["conn"]]}
-        cases.append({"id": k, "g": g, "h": h, "eq": bool(s["eq"])})
+        cases.append({"id": k, "g": g, "h": h, "eq": bool(s["eq"]), "scale": SCALES[k % len(SCALES)]})
     if not thorough and len(cases) > 6000:
         import random
 
@@ -100,6 +119,18 @@ def run(ctx):
         cases = keep + rng.sample(rest, max(0, 6000 - len(keep)))
     else:
         ctx.exhaustive = True
+    # pairs differing in coordinates only are realised under every scale (a tolerance in __eq__ shows
+    # only for tiny differences), the others under one
+    extra = []
+    for c in cases:
+        if diff_kind(c["g"], c["h"]) in ("lon", "lat", "lon+lat"):
+            for sc in SCALES:
+                if sc != c["scale"] and (thorough or c["id"] % 2 == 0):
+                    e = dict(c)
+                    e["scale"] = sc
+                    e["id"] = "%s:%s" % (c["id"], sc)
+                    extra.append(e)
+    cases = cases + extra
     res = pmap(run_pair, cases)
     ctx.rule = (
         "TLC explores pairs of grids reached from a common base by single-entry edits (GridEq.tla), checking the laws of equality "
@@ -113,24 +144,24 @@ def run(ctx):
         kinds[kind] = kinds.get(kind, 0) + 1
         ctx.count(1, (str(c["g"]), str(c["h"])) if kind != "none" else None)
         ctx.traces += 1
-        rp = {"g": c["g"], "h": c["h"], "expected_eq": c["eq"]}
+        rp = {"g": c["g"], "h": c["h"], "expected_eq": c["eq"], "scale": c.get("scale")}
         if "error" in o:
-            ctx.violation("pair:%d" % c["id"], "Raises", detail=o["error"], replay=rp, sig={"diff": kind})
+            ctx.violation("pair:%s" % c["id"], "Raises", detail=o["error"], replay=rp, sig={"diff": kind, "scale": c.get("scale")})
             continue
         e = c["eq"]
         if o["obs"][0] != e or o["obs"][1] != e:
-            ctx.violation("pair:%d" % c["id"], "EqIffIdentical", detail={"obs": o["obs"], "expected": e, "diff": kind}, replay=rp, sig={"diff": kind})
+            ctx.violation("pair:%s" % c["id"], "EqIffIdentical", detail={"obs": o["obs"], "expected": e, "diff": kind}, replay=rp, sig={"diff": kind, "scale": c.get("scale")})
         if o["obs"][0] != o["obs"][1]:
-            ctx.violation("pair:%d" % c["id"], "Symmetric", detail=o["obs"], replay=rp, sig={"diff": kind})
+            ctx.violation("pair:%s" % c["id"], "Symmetric", detail=o["obs"], replay=rp, sig={"diff": kind, "scale": c.get("scale")})
         if o["obs"][2] != (not o["obs"][0]) or o["obs"][3] != (not o["obs"][1]):
-            ctx.violation("pair:%d" % c["id"], "NeIsNegation", detail=o["obs"], replay=rp, sig={"diff": kind})
+            ctx.violation("pair:%s" % c["id"], "NeIsNegation", detail=o["obs"], replay=rp, sig={"diff": kind, "scale": c.get("scale")})
         if o["refl"] != [True, True, False] or o["same"] != [True, True, False]:
-            ctx.violation("pair:%d" % c["id"], "Reflexive", detail={"refl": o["refl"], "same": o["same"]}, replay=rp, sig={"diff": kind})
+            ctx.violation("pair:%s" % c["id"], "Reflexive", detail={"refl": o["refl"], "same": o["same"]}, replay=rp, sig={"diff": kind, "scale": c.get("scale")})
         if o["copy"] != [True, True]:
-            ctx.violation("pair:%d" % c["id"], "CopyEqual", detail=o["copy"], replay=rp, sig={"diff": kind})
+            ctx.violation("pair:%s" % c["id"], "CopyEqual", detail=o["copy"], replay=rp, sig={"diff": kind, "scale": c.get("scale")})
         if o["nongrid"] != [False, False, False, True]:
-            ctx.violation("pair:%d" % c["id"], "NonGridFalse", detail=o["nongrid"], replay=rp, sig={"diff": kind})
+            ctx.violation("pair:%s" % c["id"], "NonGridFalse", detail=o["nongrid"], replay=rp, sig={"diff": kind, "scale": c.get("scale")})
     ctx.note("difference_kinds", kinds)
     for c in cases[:1] + cases[len(cases) // 2 : len(cases) // 2 + 2]:
         ctx.sample({"g": c["g"], "h": c["h"], "expected_eq": c["eq"]})
-    ctx.assumptions += ["abstract coordinate value v is realised as 10*v degrees", "format 'B' is realised as the same dataset with source_grid_spec='UGRID'"]
+    ctx.assumptions += ["abstract coordinate values are realised 10 degrees, one ulp, or 1e-9 degrees apart", "format 'B' is realised as the same dataset with source_grid_spec='UGRID'"]
